@@ -5,17 +5,25 @@ From IKE Require Import Lib.Base.
 Section PrfPlus.
   Variable prf : bytes -> bytes -> bytes.      (* prf K data *)
 
+  (* the definition as the RFC writes it *)
   Fixpoint T (K Sd : bytes) (n : nat) : bytes :=
     match n with
     | O => []
     | S m => prf K (T K Sd m ++ Sd ++ [n2b (N.of_nat n)])
     end.
 
-  (* T1 | T2 | ... | Tn *)
-  Definition stream (K Sd : bytes) (n : nat) : bytes := concat (map (T K Sd) (seq 1 n)).
+  (* Ti, Ti+1, ... (n blocks) given Ti-1: the same sequence computed once *)
+  Fixpoint blocks (K Sd : bytes) (n i : nat) (prev : bytes) : list bytes :=
+    match n with
+    | O => []
+    | S m => let t := prf K (prev ++ Sd ++ [n2b (N.of_nat i)]) in t :: blocks K Sd m (S i) t
+    end.
 
-  (* the first L octets of the stream (L blocks always suffice when blocks are non-empty) *)
-  Definition prf_plus (K Sd : bytes) (L : nat) : bytes := firstn L (stream K Sd L).
+  (* T1 | T2 | ... | Tn *)
+  Definition stream (K Sd : bytes) (n : nat) : bytes := concat (blocks K Sd n 1 []).
+
+  (* the first L octets of T1 | ... | Tn *)
+  Definition prf_plus (K Sd : bytes) (n L : nat) : bytes := firstn L (stream K Sd n).
 End PrfPlus.
 
 Definition slice (i j : nat) (l : bytes) : bytes := firstn (j - i) (skipn i l).
